@@ -171,6 +171,7 @@ func main() {
 	debug.SetGCPercent(-1) // garbage collection (and with it sync.Pool flushing) happens when the simulator says so
 	simhook.YHook = yHook
 	simhook.BlockHook = blockHook
+	simhook.GoHook = goHook
 	installHooks()
 
 	start := time.Now()
@@ -216,7 +217,19 @@ func main() {
 		rc.ev.add(rs)
 		raceBefore := raceErrors()
 		stepsBefore := totalSteps
+		amb := newAmbient(tp.Stream("ambient"))
+		curSched = amb
 		fn(rc)
+		amb.drain()
+		curSched = nil
+		if spawnedTotal > 0 {
+			rc.probes["goroutines_started_by_the_code_under_test"] += spawnedTotal
+			spawnedTotal = 0
+		}
+		for _, p := range childPanics {
+			rc.violation("the library does not crash the process", "panic-in-goroutine-started-by-the-library", "a goroutine started by the code under test panicked (this kills the whole process): "+p)
+		}
+		childPanics = nil
 		if d := raceErrors() - raceBefore; d > 0 {
 			rc.violation("race detector", "race", fmt.Sprintf("%d race report(s) during this run; see the race log of this process", d))
 		}
